@@ -10,6 +10,8 @@ import json, os, random
 import vlib
 
 FAMILIES = ["types", "consts", "svcs", "mixed", "modules", "modsvcs", "dotted", "aliasitem", "lists", "selfstruct"]
+# no defaults in these programs: judged against Denote alone (C07Trace_light.cfg; executing the model per link order is too slow in TLC)
+MODEL_ONLY = ["xcycle"]
 
 
 def canary(row, rng):
@@ -26,7 +28,22 @@ def canary(row, rng):
     return row
 
 
+def xfile_typedef_cycle(row):
+    """typedefs of two files that name each other through include-qualified names"""
+    inc = row["prog"]["inc"]
+    if "b" not in inc.get("a", []) or "a" not in inc.get("b", []):
+        return False
+    td = {tuple(t["key"]): t["def"].get("tgt") for t in row["prog"]["ty"] if t["def"].get("k") == "td"}
+    for (m, n), tgt in td.items():
+        if tgt and tgt.get("q") in ("a", "b") and tgt["q"] != m:
+            back = td.get((tgt["q"], tgt["n"]))
+            if back and back.get("q") == m and back.get("n") == n:
+                return True
+    return False
+
+
 def linker_models(ctx, families, negctl=True):
+    families = list(families) + [f for f in MODEL_ONLY if f not in families]
     vlib.model_check_many(ctx, [("MCLinker", "MCLinker_%s.cfg" % f, None) for f in families], workers_each=4)
     if negctl:
         cfg = open(os.path.join(vlib.SPECS, "MCLinker_types.cfg")).read().replace("Repaired = TRUE", "Repaired = FALSE")
@@ -50,22 +67,27 @@ def gen_programs(ctx, families, per_family, rng):
             # programs with a reference cycle are where the link order can matter: take them first
             cyc = [r for r in rows if r.get("cyc")]
             rest = [r for r in rows if not r.get("cyc")]
-            take_c = rng.sample(cyc, min(len(cyc), (2 * per_family) // 3))
-            rows = take_c + rng.sample(rest, min(len(rest), per_family - len(take_c)))
+            # cycles that leave the file and come back are rare in the family: some of them are always taken
+            xf = [r for r in cyc if xfile_typedef_cycle(r)]
+            take_x = rng.sample(xf, min(len(xf), 16))
+            total[f + "_cycles_across_files_taken"] = len(take_x)
+            cyc = [r for r in cyc if r not in take_x]
+            take_c = take_x + rng.sample(cyc, min(len(cyc), (2 * per_family) // 3))
+            rows = take_c + rng.sample(rest, min(len(rest), max(0, per_family - len(take_c))))
         total[f + "_with_ref_cycle"] = sum(1 for r in rows if r.get("cyc"))
         cases += rows
     ctx.cov["family_sizes"] = total
     return cases
 
 
-def judge(ctx, rows, module="C07Trace", canary_fn=canary):
-    bad, drift = vlib.validate_trace(ctx, module, rows, canary=canary_fn, shard=1500, timeout=3000)
+def judge(ctx, rows, module="C07Trace", canary_fn=canary, cfg=None):
+    bad, drift = vlib.validate_trace(ctx, module, rows, canary=canary_fn, shard=1500, timeout=3000, cfg=cfg)
     for row, why in bad:
         obs = dict(row)
         obs["_failed"] = sorted(why)
         obs["_class"] = "known-default-cast" if why == ["KNOWN-CLASS-default-cast-while-linking"] else "other"
         vlib.report_failure(ctx, obs, {"failed": why, "id": row.get("id")},
-                            case={"prog": row["prog"], "order": row["order"]})
+                            case={"prog": row["prog"], "order": row["order"], "light": str(row.get("id", "")).split("-")[0] in MODEL_ONLY})
     for row, why in drift:
         ctx.drift.append({"id": row.get("id"), "files": row.get("files"), "order": row.get("order"), "ok": row.get("ok"),
                           "model_predicates": why})
@@ -92,13 +114,17 @@ def run(ctx):
         extra = ["-natural", "0"]
     else:
         linker_models(ctx, FAMILIES)
-        cases = gen_programs(ctx, FAMILIES, 160 if ctx.quick() else 6000, rng)
+        cases = gen_programs(ctx, FAMILIES + MODEL_ONLY, 160 if ctx.quick() else 6000, rng)
         extra = ["-orders", "12" if ctx.quick() else "36", "-natural", "2" if ctx.quick() else "6"]
     rows, crashes = vlib.run_driver_batches(ctx, drv, "c07", cases, args=extra, batch=max(20, len(cases) // 32 + 1), timeout=1200)
     for case, how, out in crashes:
         vlib.report_failure(ctx, case, {"failed": ["process-died:" + how], "output": out[:700]}, case=case)
     ctx.evals = len(rows)
-    judge(ctx, rows)
+    light = [r for r in rows if str(r.get("id", "")).split("-")[0] in MODEL_ONLY or (ctx.replay and rep["case"].get("light"))]
+    lightids = {id(r) for r in light}
+    judge(ctx, [r for r in rows if id(r) not in lightids])
+    if light:
+        judge(ctx, light, cfg="C07Trace_light.cfg", canary_fn=lambda row, r: (dict(row, ok=not row["ok"], dump={"roots": [], "targets": [], "consts": [], "parents": [], "shared": True, "mods": []}) if row.get("op") == "c07" and not row.get("panic") else None))
     if not ctx.replay:
         # field defaults written in terms of the enclosing struct (DefaultCycle.tla): accepted exactly when no literal leaves the
         # field out -- the meaning does not depend on what else was linked before (other defaulted fields, earlier literals)
